@@ -7,6 +7,7 @@ PID = "C04"
 LEVEL = "exploration"
 RULE = (
     "One spec in three has lived before (warm start): another model edited in place into this one or swapped into the old project object, or the model's own run cut short by max_time and then continued with one of the unequal initialize-flag combinations (state carried over and logs restarted, or state reset and logs appended), or a first run that does not initialize the logs. A 'pinned' profile gives facility tasks both fixed-ID lists at once. "
+    'One cold-started spec in six is simulated with unit_time 2 or 3 (absence lists in time units, steps and logs indexed by step). '
     'Hypothesis-generated models with skills incl. 0 and missing keys, partial team/workplace targeting, solo flags on workers and facilities, fixed-ID lists (also lists naming nobody), absences. Oracle on every newly allocated worker/facility (allocated snapshot minus updated snapshot of the same step) against the static spec: positive skill, targeting team/workplace, not absent, inside fixed lists, pairs for facility tasks (equal counts, operable facility, new facility paired with new worker), no facility on tasks that need none, solo resources never combined. Non-trivial = some step where a task got a resource while an ineligible free worker existed (the filter discriminated); distinct by spec hash.'
 )
 ASSUMPTIONS = [
@@ -17,7 +18,7 @@ TECHNIQUE = 'property-based testing (Hypothesis): generated models, every alloca
 LEVEL_TEXT = 'Generated-input search: every allocation decision of every generated run is checked against an independent eligibility predicate on the spec; not a proof.'
 LEVEL_NOTE = 'Trusts the step observer and the builder.'
 
-CFG = gen.Cfg(warm_modes=["morph", "graft", "carry", "append", "nolog"], warm=3, onesided=4, facilities=True, max_time=[40, 80], p_auto=12, abs_p=2, abs_size=6, abs_max=12)
+CFG = gen.Cfg(unit_time=6, warm_modes=["morph", "graft", "carry", "append", "nolog"], warm=3, onesided=4, facilities=True, max_time=[40, 80], p_auto=12, abs_p=2, abs_size=6, abs_max=12)
 
 
 # "pinned": facility tasks that fix one facility (and often one or two workers) - both fixed-ID lists at once
